@@ -9,7 +9,11 @@ LEVEL = "exploration"
 RUNS = {"quick": 24000, "thorough": 400000}
 CHUNK = 250
 RULE = ("seeded random traces (1-25 steps) of public mutators/reads issued on the root and on nested children (fresh "
-        "navigation and retained handles, depth<=4) of one unbuffered collection per run, over 6 JSON families x "
+        "navigation and retained handles, depth<=4) of 1-2 unbuffered objects on one resource (an outside writer in a "
+        "share of runs), plus a separately configured FAULT-INJECTING share (OSError EIO/ENOSPC/EACCES/EMFILE at a seeded "
+        "seam call of a mutator, then a fault-free retry of the same call: the failed call may or may not have been "
+        "applied, the backend must hold the previous or the new content, never anything else, and a call that returns "
+        "normally must have written), over 6 JSON families x "
         "{dict,list} x write_concern x threading on/off on a real tmpfs file and Redis/MongoDB/Zarr dict/list on stub "
         "stores; after every mutating call the independent observer (raw bytes + own json.loads / stub storage) must "
         "equal the reference model type-strictly. A run is non-trivial if >=1 mutator executed through a nested "
@@ -25,9 +29,16 @@ EXPECT_PROBES = {"quick": [], "thorough": []}
 def make_cfg(rs, tier):
     ns = lib.load()
     fam = G.pick(rs, sorted(ns.families))
-    return {"prop": ID, "family": fam, "kind": G.pick(rs, ["dict", "list"]), "wc": rs.random() < 0.5,
-            "threading": rs.random() < 0.7, "length": rs.choice([3, 6, 12, 25]), "oracles": ["backend"],
-            "depth": rs.choice([1, 2, 3]), "uuid_seed": rs.getrandbits(32)}
+    cfg = {"prop": ID, "family": fam, "kind": G.pick(rs, ["dict", "list"]), "wc": rs.random() < 0.5,
+           "threading": rs.random() < 0.7, "length": rs.choice([3, 6, 12, 25]), "oracles": ["backend", "children"],
+           "depth": rs.choice([1, 2, 3]), "uuid_seed": rs.getrandbits(32),
+           "nobj": rs.choice([1, 1, 2]), "p_outside": rs.choice([0.0, 0.0, 0.15]), "p_fault": 0.0}
+    if ns.families[fam]["store"] == "file" and rs.random() < 0.25:
+        # fault-injecting configuration (run separately from the fault-free one): I/O errors inside mutators, then retries
+        cfg["p_fault"] = 0.3
+        if not (cfg["wc"] or cfg["threading"]):
+            cfg["wc"] = True   # only the atomic write modes promise an intact file after a failed save (C08)
+    return cfg
 
 
 def setup(w, rg):
@@ -37,13 +48,32 @@ def setup(w, rg):
         from ..core.values import gen_value
         init = gen_value(rg, w.fresh, 3, cfg["kind"], 3)
     yield {"t": "new_res", "family": cfg["family"], "kind": cfg["kind"], "init": init}
-    yield {"t": "new_obj", "rid": 0, "wc": cfg["wc"]}
+    for _ in range(cfg["nobj"]):
+        yield {"t": "new_obj", "rid": 0, "wc": cfg["wc"]}
 
 
 def gen_step(w, rg):
+    cfg = w.cfg
+    if cfg["p_outside"] and rg.random() < cfg["p_outside"]:
+        return {"t": "outside", "rid": 0, "edit": G.gen_outside_edit(rg, w, w.res[0], cfg["depth"])}
     hs = G.attached_handles(w)
     if not hs:
         return None
+    last = getattr(w, "_last_faulted", None)
+    if last is not None:
+        # retry the operation that just failed (same arguments), now fault-free
+        w._last_faulted = None
+        if last["hid"] < len(w.handles) and w.handles[last["hid"]] is not None and w.handles[last["hid"]].state == "attached":
+            return {k: v for k, v in last.items() if k not in ("fault", "keep", "hid_new")}
+    # (faults only once the resource exists: with a missing file the library keeps its in-memory state by design,
+    #  so "applied or not" cannot be decided from the backend)
+    if cfg["p_fault"] and w.res[0].disk is not None and rg.random() < cfg["p_fault"]:
+        roots = [h for h in hs if not h.path]
+        h = G.pick(rg, roots if rg.random() < 0.5 else hs)
+        st = G.gen_op_step(rg, w, h, depth=cfg["depth"], mut_weight=1.0, slices=False, keep_p=0.0)
+        st["fault"] = {"at": rg.randrange(0, 7), "exc": ["OSError", G.pick(rg, ["EIO", "ENOSPC", "EACCES", "EMFILE"])]}
+        w._last_faulted = dict(st)
+        return st
     nested = [h for h in hs if h.path]
     h = G.pick(rg, nested) if nested and rg.random() < 0.6 else G.pick(rg, hs)
     if rg.random() < 0.25:
